@@ -77,10 +77,20 @@ void park(Worker *w, const char *label)
 	g_cv.wait(lk, [w] { return g_turn == w->id; });
 }
 
+// the main thread's own pops (final drain) run under a step budget: a pop that spins for ever is
+// reported as Stuck instead of hanging the probe
+long g_budget = 0, g_used = 0;
+
 void yield_hook(const char *label, long)
 {
 	if (tl_worker)
 		park(tl_worker, label);
+	else if (g_budget && ++g_used > g_budget)
+	{
+		pj::Ev("Stuck").i("steps", g_used).raw("labels", std::string("[\"drain:") + label + "\"]").emit();
+		fflush(stdout);
+		_exit(95);
+	}
 }
 
 void worker_main(Worker *w, ff::uMPMC_Ptr_Queue *q)
@@ -200,8 +210,9 @@ int run_ctl(const std::vector<std::string>& a)
 		_exit(95);                  // the spinning threads cannot be joined
 	}
 	for (auto& w : ws) w->th.join();
-	fix8_verif_yield_hook = nullptr;
-	// drain by the main thread
+	// drain by the main thread (hook stays installed, only to bound the number of steps)
+	g_used = 0;
+	g_budget = cap;
 	std::vector<long> vals;
 	bool capped = false;
 	for (;;)
@@ -211,6 +222,8 @@ int run_ctl(const std::vector<std::string>& a)
 		vals.push_back(dec(d));
 		if (vals.size() > static_cast<size_t>(np * npush + 8)) { capped = true; break; }
 	}
+	g_budget = 0;
+	fix8_verif_yield_hook = nullptr;
 	pj::Ev("Drain").ints("vals", vals).b("capped", capped).i("tickP", fix8_verif_peek::tickP(*q))
 		.i("tickC", fix8_verif_peek::tickC(*q)).emit();
 	return 0;
@@ -294,19 +307,9 @@ int run_free(const std::vector<std::string>& a)
 	}
 	if (!hung)
 		for (auto& t : th) t.join();
-	std::vector<long> tail;
-	bool capped = false;
-	if (!hung)
-		for (;;)
-		{
-			void *d = enc(SENTINEL);
-			if (!q->pop(&d)) break;
-			tail.push_back(dec(d));
-			if (tail.size() > 64) { capped = true; break; }
-		}
 	pj::Ev("Reset").s("mode", "free").i("nq", static_cast<long>(fix8_verif_peek::slots(*q))).i("np", np).i("nc", nc)
 		.i("npush", npush).i("npop", 0).emit();
-	for (int c = 0; c < nc; ++c)
+	for (int c = 0; c < nc && !hung; ++c)    // (the logs of threads that are still running are not touched)
 	{
 		std::string j = "[";
 		for (const PopRec& r : logs[c])
@@ -315,6 +318,24 @@ int run_free(const std::vector<std::string>& a)
 			j += "[" + std::to_string(r.p) + "," + std::to_string(r.k) + "]";
 		}
 		pj::Ev("Pops").i("c", c + 1).raw("items", j + "]").emit();
+	}
+	// what is left in the queue (nothing, if every element was popped once); bounded like the ctl drain
+	std::vector<long> tail;
+	bool capped = false;
+	if (!hung)
+	{
+		g_used = 0;
+		g_budget = 100000;
+		fix8_verif_yield_hook = yield_hook;
+		for (;;)
+		{
+			void *d = enc(SENTINEL);
+			if (!q->pop(&d)) break;
+			tail.push_back(dec(d));
+			if (tail.size() > 64) { capped = true; break; }
+		}
+		g_budget = 0;
+		fix8_verif_yield_hook = nullptr;
 	}
 	pj::Ev("FreeEnd").ints("pushed", pushed).b("timeout", giveup.load()).b("hung", hung).ints("tail", tail).b("capped", capped)
 		.i("tickP", fix8_verif_peek::tickP(*q)).i("tickC", fix8_verif_peek::tickC(*q)).emit();
